@@ -574,6 +574,96 @@ func plainBool(c *Ctx, rule, key string, f *fieldImpl) {
 	} else {
 		r.ok(rule, key+" read", rpos, "GetBools/unpackBools: element k of each byte is bit k (LSB first)")
 	}
+	if why := boolPadding(u); why != "" {
+		r.bad(rule, key+" read padding", rpos, why)
+	} else {
+		r.ok(rule, key+" read padding", rpos, "the number of values taken from a byte is bounded by what is left of the page's count")
+	}
+}
+
+// boolPadding: in GetBools the number of elements taken from one unpacked byte is bounded by the page's REMAINING value
+// count. The defect this decides: the bound is min(X, 8) (or X itself) with X not changing from byte to byte of a page —
+// then every byte of a page of more than 8 values yields the same number of values and the padding bits of its last
+// byte are decoded as values. Other forms of the bound are not judged.
+func boolPadding(u *Universe) string {
+	gb := u.Func(rtPath, "GetBools")
+	if gb == nil {
+		return "parquet.GetBools not found"
+	}
+	var ucall *ssa.Call
+	for _, b := range gb.Blocks {
+		for _, ins := range b.Instrs {
+			if call, ok := ins.(*ssa.Call); ok {
+				if sc := call.Call.StaticCallee(); sc != nil && u.InUniverse(sc) && sc.Signature.Results().Len() == 1 && len(sc.Params) == 1 {
+					if at, ok := sc.Signature.Results().At(0).Type().Underlying().(*types.Array); ok && at.Len() == 8 {
+						ucall = call
+					}
+				}
+			}
+		}
+	}
+	if ucall == nil {
+		return ""
+	}
+	// the byte loop: blocks on a cycle through the unpack call
+	inLoop := map[*ssa.BasicBlock]bool{}
+	for _, x := range reachableBlocks(ucall.Block()) {
+		for _, y := range reachableBlocks(x) {
+			if y == ucall.Block() {
+				inLoop[x] = true
+			}
+		}
+	}
+	// ... restricted to the innermost one: blocks dominated by the loop header that also reach the call without leaving
+	varying := func(x ssa.Value) bool {
+		phi, ok := x.(*ssa.Phi)
+		if !ok || !inLoop[phi.Block()] {
+			return false
+		}
+		for _, e := range phi.Edges {
+			if bo, ok := e.(*ssa.BinOp); ok && bo.Op == token.SUB && bo.X == ssa.Value(phi) && inLoop[bo.Block()] {
+				return true
+			}
+		}
+		return false
+	}
+	for b := range inLoop {
+		iff, ok := lastInstr(b).(*ssa.If)
+		if !ok {
+			continue
+		}
+		bo, ok := iff.Cond.(*ssa.BinOp)
+		if !ok || bo.Op != token.LSS {
+			continue
+		}
+		if _, isPhi := bo.X.(*ssa.Phi); !isPhi {
+			continue
+		}
+		bound := bo.Y
+		var x ssa.Value
+		if call, ok := bound.(*ssa.Call); ok && len(call.Call.Args) == 2 {
+			// min(X, 8) / min(8, X)
+			a0, a1 := call.Call.Args[0], call.Call.Args[1]
+			switch {
+			case constIs(a1, 8):
+				x = a0
+			case constIs(a0, 8):
+				x = a1
+			}
+		}
+		if x == nil {
+			continue
+		}
+		if _, isC := x.(*ssa.Const); isC {
+			continue
+		}
+		// x must be the remaining count: a quantity decreased inside the byte loop
+		// (the page loop around it is also a cycle through the call; a phi of the page loop alone is decreased nowhere)
+		if !varying(x) {
+			return fmt.Sprintf("each byte of a page yields min(%s, 8) values and %s does not decrease from byte to byte: for a page of more than 8 values whose count is not a multiple of 8 the padding bits of its last byte are decoded as values (and every later value of the chunk shifts)", symExpr(x, 0), symExpr(x, 0))
+		}
+	}
+	return ""
 }
 
 // unpackBoolsOrder interprets the runtime's byte unpacker (the func(byte) [8]bool that GetBools calls) abstractly on a
@@ -912,44 +1002,69 @@ func checkC15(c *Ctx) {
 		k, ok := v.(*ssa.Const)
 		return ok && k.Value != nil && k.Value.Kind() == constant.String && constant.StringVal(k.Value) == "*"
 	}
+	// (in structs.field itself or in a helper of the package it calls for the prefix)
+	unit := []*ssa.Function{fld}
 	for _, b := range fld.Blocks {
-		iff, ok := lastInstr(b).(*ssa.If)
-		if !ok || !isOptionalTest(iff.Cond, 0) {
-			continue
-		}
-		// the "*" is introduced on the true side only: as a phi edge or as a string concatenation there
-		for _, blk := range fld.Blocks {
-			for _, ins := range blk.Instrs {
-				switch y := ins.(type) {
-				case *ssa.Phi:
-					for i, e := range y.Edges {
-						if isStar(e) {
-							pred := blk.Preds[i]
-							if pred == b.Succs[0] || b.Succs[0].Dominates(pred) {
-								okOpt = true
-							}
-						}
-					}
-				case *ssa.BinOp:
-					if y.Op == token.ADD && (isStar(y.X) || isStar(y.Y)) && (blk == b.Succs[0] || b.Succs[0].Dominates(blk)) && len(b.Succs[0].Preds) == 1 {
-						okOpt = true
-					}
+		for _, ins := range b.Instrs {
+			if call, ok := ins.(*ssa.Call); ok {
+				if sc := call.Call.StaticCallee(); sc != nil && sc.Blocks != nil && u.pkgPathOf(sc) == genBase+"structs" && sc != fld {
+					unit = append(unit, sc)
 				}
 			}
 		}
 	}
-	// and nowhere else
-	for _, blk := range fld.Blocks {
-		for _, ins := range blk.Instrs {
-			if y, ok := ins.(*ssa.BinOp); ok && y.Op == token.ADD && (isStar(y.X) || isStar(y.Y)) {
-				guardedOpt := false
-				for _, b := range fld.Blocks {
-					if iff, ok := lastInstr(b).(*ssa.If); ok && isOptionalTest(iff.Cond, 0) && len(b.Succs[0].Preds) == 1 && (blk == b.Succs[0] || b.Succs[0].Dominates(blk)) {
-						guardedOpt = true
+	for _, g := range unit {
+		for _, b := range g.Blocks {
+			iff, ok := lastInstr(b).(*ssa.If)
+			if !ok || !isOptionalTest(iff.Cond, 0) {
+				continue
+			}
+			// the "*" is introduced on the true side only: as a phi edge or as a string concatenation there
+			for _, blk := range g.Blocks {
+				for _, ins := range blk.Instrs {
+					switch y := ins.(type) {
+					case *ssa.Phi:
+						for i, e := range y.Edges {
+							if isStar(e) {
+								pred := blk.Preds[i]
+								if pred == b.Succs[0] || b.Succs[0].Dominates(pred) {
+									okOpt = true
+								}
+							}
+						}
+					case *ssa.BinOp:
+						if y.Op == token.ADD && (isStar(y.X) || isStar(y.Y)) && (blk == b.Succs[0] || b.Succs[0].Dominates(blk)) && len(b.Succs[0].Preds) == 1 {
+							okOpt = true
+						}
+					case *ssa.Return:
+						// a helper returning the prefix: "*" on the true side only
+						if len(y.Results) == 1 && isStar(y.Results[0]) && (blk == b.Succs[0] || b.Succs[0].Dominates(blk)) && len(b.Succs[0].Preds) == 1 {
+							okOpt = true
+						}
 					}
 				}
-				if !guardedOpt {
-					okOpt = false
+			}
+		}
+		// and nowhere else
+		for _, blk := range g.Blocks {
+			for _, ins := range blk.Instrs {
+				star := false
+				if y, ok := ins.(*ssa.BinOp); ok && y.Op == token.ADD && (isStar(y.X) || isStar(y.Y)) {
+					star = true
+				}
+				if y, ok := ins.(*ssa.Return); ok && len(y.Results) == 1 && isStar(y.Results[0]) {
+					star = true
+				}
+				if star {
+					guardedOpt := false
+					for _, b := range g.Blocks {
+						if iff, ok := lastInstr(b).(*ssa.If); ok && isOptionalTest(iff.Cond, 0) && len(b.Succs[0].Preds) == 1 && (blk == b.Succs[0] || b.Succs[0].Dominates(blk)) {
+							guardedOpt = true
+						}
+					}
+					if !guardedOpt {
+						okOpt = false
+					}
 				}
 			}
 		}
@@ -963,6 +1078,7 @@ func checkC15(c *Ctx) {
 	laFooterMeta(c, "LA-footer", map[string]bool{"totals": true})
 	laStructs(c, "LA-structs")
 	laCells(c, "LA-cells")
+	laCLI(c, "LA-cli")
 	r.floor("LA-types/table-entries", 6, "BOOLEAN, INT32, INT64, FLOAT, DOUBLE, BYTE_ARRAY")
 	r.assume("tree reconstruction from num_children (structs.getStruct) is NOT decided")
 }
